@@ -35,23 +35,8 @@ def plan(tier):
     return [{"kind": "random", "examples": per, "sweep": types[i::n]} for i in range(n)]
 
 
-@st.composite
-def nested_meta(draw):
-    """A MetaModule whose embedded project holds a MetaModule whose embedded project holds ... (2-4 levels)."""
-    ms = draw(build.module_spec(in_project=True, depth=1, tname="MetaModule"))
-    for _ in range(draw(st.integers(1, 3))):
-        outer = draw(build.module_spec(in_project=True, depth=1, tname="MetaModule"))
-        outer["payload"]["project"]["modules"].append(ms)
-        ms = outer
-    return ms
-
-
-def meta_depth(ms):
-    if not ms:
-        return 0
-    if ms.get("type") != "MetaModule":
-        return 0
-    return 1 + max([meta_depth(x) for x in ms["payload"]["project"]["modules"]] + [0])
+nested_meta = build.nested_meta
+meta_depth = build.meta_depth
 
 
 def conform(data, snap, what):
